@@ -13,6 +13,7 @@ RULE = ("block level: every (l_a, l_b) in 0..5 x 0..5 enumerated, K 1-4, M 1-3, 
         "with T_aa from the exact model; non-trivial: block not identically zero and (l>0 or K>1); distinct by input hash; "
         "hp stream: 6 (quick) / 60 (thorough) shell pairs l<=2 / l<=4, K,M<=2, replayed at 260 bits, tolerance 1e-18 x "
         "sum|primitive terms|")
+RULE += " HISTORY stream (the returned value depends only on the arguments): basis-level shells carry the atom index (icenter; shells sharing a centre share it); every 2nd generated basis (quick; every 4th thorough; with a transform only bases of 1-2 shells) and every 5th same-centre pair is a GEOMETRY SCAN evaluated in one process: the same shells (exponents, coefficients, types, icenter) with the atoms displaced rigidly by k/16 bohr (one atom, or every atom by its own vector) at 1-2 further geometries, then the first geometry again; every call is compared with the exact model at its own geometry with the same tolerance (detail kind \"history\", the replay case contains the geometries; shrinking and replay evaluate every candidate sequence in a fresh process)"
 ASSUMPTIONS = ["floating-point rounding of the NumPy pipeline is not modelled: the accuracy bound is decided on the "
                "generated inputs against the exact value"]
 
@@ -65,4 +66,4 @@ def gen_cases(tier, seed):
 
 def run(rep, tier, seed, model, replay):
     cases = [replay["case"]] if replay is not None else gen_cases(tier, seed)
-    run_cases(rep, cases, eval_case, shrinkfn=twoindex.shrink_case)
+    run_cases(rep, cases, eval_case, shrinkfn=twoindex.shrink_case, isolate=True)
